@@ -1,6 +1,7 @@
 From Coq Require Import List NArith Bool String Ascii.
 From GIV.Lib Require Import Regex Str.
 From GIV.Model Require Import C02 C16.
+From GIV.Model Require C01.
 Import ListNotations.
 Local Open Scope N_scope.
 
